@@ -345,6 +345,9 @@ def analyze(kit):
                 if not ok or not np.array_equal(solved, solved2):
                     kit.fail(["C10"], "could not recover the generator's draws from its own intermediate grids (an interlock value is neither neighbour, or a block is no rotation of its crop)",
                              dict(cfg=label, op="draws"), dict(meta, solved=solved.tolist(), blocks=blocks.tolist()))
+                    # an instance that is not even the generator's documented construction: the concrete failing input is reported
+                    # above; the model replay / verified searches below assume a well-formed instance (and may not terminate quickly)
+                    continue
                 args = [nrb, ncb] + [x for dd in cd for x in dd] + [x for dd in rd for x in dd] + rots + perm
                 add("flat_pack_gen_io", args, "gen", [("valid_draw", 1), ("base_grid", R * C), ("solved_grid", R * C), ("tiling_ok", 1), ("blocks", N * 9)],
                     [1] + ints(base) + ints(solved) + [1] + ints(blocks), meta)
@@ -381,7 +384,10 @@ def analyze(kit):
                     res["C10"].count("unsolvable")
                     m2 = dict(meta, blocks=blocks.tolist(), solved_grid=solved.tolist(),
                               repro="gen=RandomFlatPackGenerator(%d,%d); s=gen(jnp.asarray(%s,dtype=jnp.uint32)); exhaustive search over (block,rotation,row<=R-3,col<=C-3) finds no exact tiling" % (nrb, ncb, meta["key"]))
-                    if N <= 6:
+                    if int((blocks != 0).sum()) != R * C:
+                        kit.fail(["C10"], "generated block set cannot tile the grid: its cells do not add up to the grid area",
+                                 dict(cfg=label, op="unsolvable-instance"), dict(m2, cells=int((blocks != 0).sum()), area=R * C))
+                    elif N <= 6:
                         add("flat_pack_solvable_io", ecfg + ints(blocks), "solvable", None, [1], m2)
                     else:
                         kit.fail(["C10"], "generated block set admits NO complete solution inside the action space (exhaustive python search; instance too large for the verified search)",
